@@ -18,6 +18,18 @@ Model: lean/JoblibModel/MemoryCache.lean; theorems: lean/JoblibProofs/C06.lean; 
   Model side: the functions' effect on their arguments goes to the driver as `mut` rows (observed on the PLAIN function);
   the code as it is never reads them (theorem C02.effect_on_arguments_irrelevant), the variant `reset … key-after-call` does.
 
+  PARTIALLY ORDERED KEYS (seeded change seed5-C06-m1: `_holds_frozenset` with exact-type tests): + 4 % histories (`pord…`, oracle
+  only — instances of tuple / frozenset subclasses are pickled through their class) whose dict / set / frozenset arguments have keys
+  / elements on which `<` is a partial order — frozensets, instances of a frozenset subclass, namedtuples, tuple-subclass instances
+  and tuples holding them at any depth, nested inside other containers — each call repeated with the EQUAL container built in
+  reversed and shuffled insertion orders (`order` = None | "rev" | ["perm", n]), positional / keyword, same and fresh process; two
+  corpus histories. Signature `equivalent-call-reexecuted:<kind>:partially-ordered-keys-in-another-insertion-order`. Model side:
+  plain tuples holding frozensets are in the model's universe (GROUPS, `corpus-nested-frozenset-keys`); theorems
+  `sorted_only_on_totally_ordered_keys` (the encoder hands `sorted()` totally ordered key lists only; everything holding a
+  frozenset goes through the digests) and `reordered_partially_ordered_keys_witness`. `VERIF_MEMCACHE_PARTIAL_LT=1` adds keys of a
+  USER class with a partial `__lt__` (harness/memcache_types.Lattice): the unchanged tree re-executes for those (reported; not in
+  the default path).
+
 The model has two versions (`reset old|fixed`): the pinned tree, where MemorizedFunc.call stores without checking the function
 code (F30: `cf.call(x)` on a fresh directory, then `cf(x)` executes again; `check_call_in_cache` says False while the next call is
 served), and the tree with fixes/F30-forced-call-checks-func-code.diff. The harness asks for the version the tree under test shows
@@ -46,6 +58,9 @@ REQUIRED_THEOREMS = [
     "C06.hit_after_forced_call_mutating_equivalent_partial",
     "C06.check_true_after_call",
     "C06.key_after_call_counterexample",
+    # dict keys / set elements that are only partially ordered (frozensets, tuples holding them)
+    "C06.sorted_only_on_totally_ordered_keys",
+    "C06.reordered_partially_ordered_keys_witness",
 ]
 TRUSTED_EXTRA = c02.TRUSTED_EXTRA + [
     "results that cannot be pickled are outside the model (its values are storable): covered by the oracle-only probe "
